@@ -82,6 +82,11 @@ def run_case(case):
                        *h.spec["objects"][ups[0]]["params"]["hourly_usage_journey_starts"][2:]]}
         if h.apply(e) is None:
             classes.add("non_integer_hourly_input")
+    # an input that is ADDED to a calculated series, edited twice (an update rule that writes into its operand is not idempotent)
+    for _ in range(2):
+        e = edits.storage_base_edit(rnd, h.spec)
+        if e is not None and h.apply(e) is None:
+            classes.add("initial_storage_need_edited")
     f3_nets = set()
     for _ in range(case["n_edits"]):
         sb = h.spec
